@@ -6,7 +6,7 @@
                     nodes), then overlayClasses;  proj_board = what d2compiler makes of a board map *)
 From Coq Require Import List NArith Bool Arith.
 Import ListNotations.
-Require Import V.C15.Boards V.C15.Variants V.C15.Proofs V.C15.Theorems V.C15.Check V.C15.Store.
+Require Import V.C15.Boards V.C15.Variants V.C15.Proofs V.C15.Theorems V.C15.Check V.C15.Store V.C15.Classes.
 
 (* -------- a scenario shows its base as declared BEFORE it plus its own changes *)
 Theorem C15_scenario_is_base_plus_own :
@@ -49,6 +49,24 @@ Theorem C15_layer_starts_empty :
     child Layers l (stepm [] m (DBoards Layers [(l, body)])) = Some (cb empty_map body)
     /\ (forall x, nb x = true -> untouched x body = true -> find_f x (m_fs (cb empty_map body)) = None).
 Proof. exact layer_starts_empty. Qed.
+
+(* ... and may use the base's classes: a layer below a board that ends with the classes map cm ends with a
+   classes field holding every class of cm, whatever the boards further up declare (overlayClasses after
+   d2 2ba3646d1) *)
+Theorem C15_layer_receives_classes :
+  forall cm fs es,
+    (match find_f s_classes fs with Some f => f_comp f <> None | None => True end) ->
+    exists pre merged,
+      m_fs (oc_in (Some cm) (IMap fs es)) = pre ++ [Fld s_classes None (Some merged)]
+      /\ forall n, In n (names (m_fs cm)) -> In n (names (m_fs merged)).
+Proof. exact layer_receives_classes. Qed.
+
+(* historical: the pinned overlayClasses (early return when a board has no classes of its own) lost the
+   classes of a parent layer; the repaired one does not (finding C15-nested-layer-classes, fixed) *)
+Theorem C15_nested_layer_classes_pinned_lost :
+  has_classes (inner_layer (oc_in_pinned None (cb empty_map nested_layers_prog))) = false
+  /\ has_classes (inner_layer (overlay_classes (cb empty_map nested_layers_prog))) = true.
+Proof. exact nested_layer_classes_pinned_lost. Qed.
 
 (* -------- changes made inside any board never alter its base board ... *)
 (* first phase, ALL programs of the fragment: the base's own fields and connections are those of the
@@ -124,6 +142,8 @@ Print Assumptions C15_scenario_is_flat_program.
 Print Assumptions C15_step_includes_previous.
 Print Assumptions C15_first_step_is_base_plus_own.
 Print Assumptions C15_layer_starts_empty.
+Print Assumptions C15_layer_receives_classes.
+Print Assumptions C15_nested_layer_classes_pinned_lost.
 Print Assumptions C15_no_leak_ir.
 Print Assumptions C15_sibling_untouched.
 Print Assumptions C15_store_never_written.
